@@ -165,8 +165,23 @@ LAYOUTS = {"distinct": ("Q", "M", ["Q", "M", "T"]), "shared": ("T", "T", ["T"]),
            "mutnested": ("Q", "T", ["Q", "T"])}
 
 
+# every field declares these (nullable Int) arguments: names that collide with parameters of the
+# library's / the runtimes' own plumbing. f["args"] = {name: int} passes some of them in the query;
+# resolvers take **kwargs and ignore them: arguments do not alter the behaviour tree.
+ARG_POOL = ["fn", "func", "self", "args", "kwargs", "root", "ctx", "info", "callback", "value", "loop",
+            "executor", "future", "timeout"]
+# `root` and `info` are parameters of py_gql's default_resolver itself: passing them to a field
+# without explicit resolver fails identically under every configuration on HEAD
+ARGS_NOT_FOR_DEFAULT_RESOLVER = {"root", "info"}
+
+
+def allowed_args(mode):
+    return [a for a in ARG_POOL if mode in ("P", "C") or a not in ARGS_NOT_FOR_DEFAULT_RESOLVER]
+
+
 def _sdl(layout="distinct"):
-    fields = "\n".join("  %s%s: %s" % (sh, m, SHAPES[sh][0]) for sh in SHAPES for m in FIELD_SUFFIXES)
+    args = "(%s)" % ", ".join("%s: Int" % a for a in ARG_POOL)
+    fields = "\n".join("  %s%s%s: %s" % (sh, m, args, SHAPES[sh][0]) for sh in SHAPES for m in FIELD_SUFFIXES)
     q, mu, types = LAYOUTS[layout]
     return ("scalar Sc\nschema { query: %s mutation: %s }\n" % (q, mu)
             + "".join("type %s {\n%s\n}\n" % (t, fields) for t in types))
@@ -228,7 +243,10 @@ def doc_of(program):
             sub = " { %s }" % (sel([merged[k] for k in sorted(merged)], None, "T") if merged else "__typename")
         elif SHAPES[shape_of(f)][2] in ("obj", "lobj", "lobjn"):
             sub = " { __typename }"
-        return "k%d: %s%s" % (f["k"], name, sub)
+        args = ""
+        if f.get("args"):
+            args = "(%s)" % ", ".join("%s: %d" % (a, v) for a, v in sorted(f["args"].items()))
+        return "k%d: %s%s%s" % (f["k"], name, args, sub)
 
     def sel(fields, plan, tname):
         by_key = {f["k"]: f for f in fields}
@@ -390,7 +408,7 @@ class DictObj(Mapping):
         return 0
 
 
-def _mw(next_, root, ctx, info, **args):
+def _mw(next_, root, ctx, info, /, **args):
     return next_(root, ctx, info, **args)
 
 
@@ -435,25 +453,25 @@ class _Run:
         return out
 
     # S everywhere; P/C under the blocking configurations; P under asyncio
-    def immediate(self, _ctx, info, **_a):
+    def immediate(self, _ctx, info, /, **_a):
         p = tuple(info.path)
         self.ctl.log("invoke", (p, 0))
         self.ctl.log("finish", (p, 0))
         return self.behave(self.world[p], p)
 
     # D: a method of the parent object (default resolver) that returns a deferred value
-    def method_deferred(self, ctx, info, **a):
+    def method_deferred(self, ctx, info, /, **a):
         if self.config in ("aio", "aiot"):
             return self.coro(None, ctx, info, **a)          # a coroutine object
         if self.config == "pool":
             return info.runtime.submit(self.pooled, None, ctx, info)   # a Future
         return self.immediate(ctx, info, **a)
 
-    def plain(self, _root, ctx, info, **a):
+    def plain(self, _root, ctx, info, /, **a):
         return self.immediate(ctx, info, **a)
 
     # P/C under the pool: the body runs when the controller completes the parked call
-    def pooled(self, _root, _ctx, info, **_a):
+    def pooled(self, _root, _ctx, info, /, **_a):
         p = tuple(info.path)
         fld = self.world[p]
 
@@ -466,7 +484,7 @@ class _Run:
 
     # P under asyncio with thread offload (AsyncIORuntime's default): the body runs when the
     # controller completes the parked executor call; further levels are awaitables
-    def offloaded(self, _root, _ctx, info, **_a):
+    def offloaded(self, _root, _ctx, info, /, **_a):
         p = tuple(info.path)
         fld = self.world[p]
 
@@ -481,7 +499,7 @@ class _Run:
         return self.behave(fld, p)
 
     # C under asyncio
-    async def coro(self, _root, _ctx, info, **_a):
+    async def coro(self, _root, _ctx, info, /, **_a):
         p = tuple(info.path)
         fld = self.world[p]
 
@@ -515,17 +533,17 @@ def _schema(config, run_box, layout="distinct"):
         for sh in SHAPES:
             for m in ("P", "C"):
                 if config in ("aio", "aiot") and m == "C":
-                    async def r(root, ctx, info, **a):
-                        return await run_box[0].coro(root, ctx, info, **a)
+                    async def r(_p0, _p1, _p2, /, **a):   # names that cannot collide with an argument
+                        return await run_box[0].coro(_p0, _p1, _p2, **a)
                 elif config == "aiot":
-                    def r(root, ctx, info, **a):
-                        return run_box[0].offloaded(root, ctx, info, **a)
+                    def r(_p0, _p1, _p2, /, **a):
+                        return run_box[0].offloaded(_p0, _p1, _p2, **a)
                 elif config == "pool":
-                    def r(root, ctx, info, **a):
-                        return run_box[0].pooled(root, ctx, info, **a)
+                    def r(_p0, _p1, _p2, /, **a):
+                        return run_box[0].pooled(_p0, _p1, _p2, **a)
                 else:
-                    def r(root, ctx, info, **a):
-                        return run_box[0].plain(root, ctx, info, **a)
+                    def r(_p0, _p1, _p2, /, **a):
+                        return run_box[0].plain(_p0, _p1, _p2, **a)
                 schema.register_resolver(tname, sh + m, r)
     _SCHEMAS[(config, layout)] = schema
     return schema
